@@ -85,6 +85,7 @@ fn main() {
         "C08" => drive(&checks::dynamic::Dynamic { faults: false }, &opts),
         "C09" => drive(&checks::dynamic::Dynamic { faults: true }, &opts),
         "C10" => drive(&checks::encodings::Encodings, &opts),
+        "C11" => drive(&checks::metamorphic::Meta, &opts),
         "C12" => drive(&checks::store::Store, &opts),
         "C13" => drive(&checks::readers::Readers, &opts),
         "C14" => drive(&checks::writers::Writers, &opts),
